@@ -572,6 +572,40 @@ def defaults(ctx, R):
             ctx.check(all(isinstance(v, float) and abs(v - w) < 1e-9 for v, w in zip(vals, want)), R, db,
                       'rust-default-equals-python-default', str(vals), 'Rust Default %s differs from the Python default '
                       '%s' % (vals, want))
+    # a default that is applied in the body of the binding (`method=None` -> Mahalanobis, documented in the Python
+    # signature of Sort / BatchSort): the value handed to the Rust constructor when the parameter is None
+    import wiring
+    from lib import expand_calls
+    for b in F.fn_bodies():
+        if 'python' not in b.npath or '__py' in b.npath or b.kind == 'Closure':
+            continue
+        for c in b.find_calls('trackers::sort::simple_api::Sort::new', 'trackers::sort::batch_api::BatchSort::new'):
+            cbs = F.get(c.callee)
+            if len(cbs) != 1:
+                continue
+            pn = wiring.param_names(cbs[0])
+            ks = [k for k, v in pn.items() if v == 'method']
+            if not ks or ks[0] - 1 >= len(c.args):
+                continue
+            e = ExprBuilder(b).arg(c, ks[0] - 1)
+            dflt = []
+            for y in e.walk():
+                if y.kind == 'call' and y.name.rsplit('::', 1)[-1] in ('unwrap_or', 'unwrap_or_else', 'map_or') and len(y.args) >= 2:
+                    dflt.append(expand_calls(F, y.args[1], depth=2))
+                if y.kind == 'call' and y.name.rsplit('::', 1)[-1] == 'unwrap_or_default':
+                    ty = [x for x in F.fn_bodies() if x.npath.endswith('PyPositionalMetricType as std::default::Default>::default')
+                          or x.npath.endswith('PositionalMetricType as std::default::Default>::default')]
+                    dflt += [expand_calls(F, ExprBuilder(x).place(0, ()), depth=2) for x in ty] or [y]
+                if y.kind == 'phi':
+                    dflt += [expand_calls(F, a, depth=2) for a in y.args if not a.places()]
+            n += 1
+            txt = ' | '.join(repr(d) for d in dflt)
+            ctx.read(b)
+            ctx.check(bool(dflt) and all('Mahalanobis' in repr(d) and 'IoU' not in repr(d) for d in dflt), R, b,
+                      'default:%s.method=None->Mahalanobis' % b.npath.rsplit('::', 2)[-2], txt[:100],
+                      '%s builds the tracker with %s when `method` is not given; the documented default is the '
+                      'Mahalanobis metric' % (b.npath.rsplit('::', 2)[-2] + '::' + b.npath.rsplit('::', 1)[-1],
+                                              txt[:200] or 'no visible default'), c.ln)
     cb = F.one('trackers::sort::metric::DEFAULT_MINIMAL_SORT_CONFIDENCE')
     if cb is not None:
         v = num(ExprBuilder(cb).place(0, ()))
@@ -579,6 +613,16 @@ def defaults(ctx, R):
         ctx.check(isinstance(v, float) and abs(v - 0.05) < 1e-9, R, cb, 'DEFAULT_MINIMAL_SORT_CONFIDENCE==python-default',
                   str(v), 'DEFAULT_MINIMAL_SORT_CONFIDENCE (%s) differs from the Python default min_confidence 0.05' % v)
     return n
+
+
+# which Rust routine(s) a free #[pyfunction] is the projection of (one line of reason each)
+FREE_DELEGATES = {
+    # Python `intersection_area(subject, clipping)` is documented as the area of sutherland_hodgman_clip(subject, clipping)
+    'intersection_area_py': ('sutherland_hodgman_clip', 'unsigned_area'),
+    'sutherland_hodgman_clip_py': ('sutherland_hodgman_clip',),   # same name minus the _py suffix
+    'nms_py': ('nms',),                                           # same name minus the _py suffix
+    'parallel_nms_py': ('nms',),
+}
 
 
 def free_functions(ctx, R):
@@ -637,6 +681,14 @@ def free_functions(ctx, R):
             n += 1
             ctx.check(len(delegates) >= 1, R, b, fn + ':delegates', '%d call(s) into the crate' % len(delegates),
                       '#[pyfunction] %s does not call any function of the crate' % fn)
+            want = FREE_DELEGATES.get(fn)
+            if want:
+                names = {c.name for c, _ in delegates} | {c.name for ob in [b] + all_closures(F, b) for c in ob.find_calls()}
+                n += 1
+                ctx.check(all(any(x in (w, w + '_py') for x in names) for w in want), R, b,
+                          fn + ':projects->' + '+'.join(want), str(sorted(names))[:100],
+                          '#[pyfunction] %s no longer goes through %s (it calls %s): it answers with another routine than '
+                          'the Rust API it is the projection of' % (fn, ' and '.join(want), sorted(names)))
             for c, args in delegates[:1]:
                 got = [projection(a, b) for a in args]
                 n += 1
